@@ -331,7 +331,7 @@ class C13(ModelCheck):
     assumptions = ["schedules are those a single event loop can produce; the harness owns every wake-up", "release 'as soon as the owner ends' is judged at the next quiescent instant"]
 
     def n_random(self, tier):
-        return {"quick": 900, "thorough": 40000}[tier]
+        return {"quick": 1800, "thorough": 40000}[tier]
 
     def gen(self, R):
         return gen(R)
